@@ -219,11 +219,12 @@ def main(argv=None):
 
     run_round(shards, topup=False)
     # Top-up rounds: the workloads are bounded by wall-clock deadlines, so on a loaded machine a run can end short of an
-    # adequacy gate although nothing is wrong.  When that is the *only* thing between the run and a verdict (no violation
+    # adequacy gate although nothing is wrong.  When that is the *only* thing between the run and a verdict (no unlisted violation
     # recorded, no worker failure), further shards with fresh shard numbers (hence fresh random streams; they take no part in
     # the exhaustive enumerations, which are partitioned over the regular shards) are run and merged, at most twice.
     topup_rounds = 0
-    while (not replay_spec and not violations and not inconclusive and gate_shortfalls() and topup_rounds < 2):
+    known_now = load_known(prop)
+    while (not replay_spec and not any(classify(v, known_now) is None for v in violations) and not inconclusive and gate_shortfalls() and topup_rounds < 2):
         topup_rounds += 1
         run_round([nshards * topup_rounds + s for s in shards], topup=True)
     if topup_rounds:
